@@ -16,6 +16,8 @@ def build(ctx):
 
 def gen_configs(ctx, n, threads=(1, 2, 3, 4), ckpts=(1, 2, 3, 7, 0), big=False, tterm=False, fossil_heavy=False, sparse=0):
     rnd = random.Random(ctx.seed * 7919 + 13)
+    # separate stream for the V2-only switch, so that all other draws (and therefore all other configurations) are what they were
+    rv2 = random.Random(ctx.seed * 15485863 + 29)
     out = []
     for i in range(n):
         lps = rnd.choice([1, 2, 3, 4, 6, 8])
@@ -49,6 +51,11 @@ def gen_configs(ctx, n, threads=(1, 2, 3, 4), ckpts=(1, 2, 3, 7, 0), big=False, 
                       "threads": rnd.choice([2, 3]), "lps": rnd.choice([3, 4, 6]), "mem": 0, "rng": 0, "burst": rnd.choice([20, 60, 200]),
                       "budget": 8000000})
             c.pop("tterm", None)
+        if rv2.randrange(6) == 0:
+            # V2-only GenModel mode (bit 1 of t0): zero-delay forwards of IDENTICAL content to the next LP - allowed by the runtime's
+            # contract V2, excluded by strict causality V2s; needs a non-tick event type >= 1
+            c["t0"] |= 2
+            c["types"] = max(c["types"], 3)
         out.append(c)
     return out
 
@@ -90,6 +97,14 @@ def run_one(ctx, mode, cfg, tag, model=True):
     o = open(ops, errors="replace").read().splitlines()
     div = None
     n = min(len(c), len(l))
+    # the abstract-machine shadows (twshadow / twgshadow) suspend themselves at the one known concrete step that is not an abstract
+    # action (C01Refine.cmpOk_is_needed; Driver/Run.lean: Sys.gapAt): nothing is claimed after that line, the marker on the model's
+    # `end` line is counted here and not treated as a divergence (a FAILED marker is)
+    suspended = []
+    if l and l[-1].startswith("end ") and "-SHADOW-SUSPENDED" in l[-1] and "-SHADOW-FAILED" not in l[-1]:
+        import re
+        suspended = re.findall(r"(TWG?)-SHADOW-SUSPENDED after (\d+) abstract steps", l[-1])
+        l[-1] = re.sub(r" TWG?-SHADOW-SUSPENDED after \d+ abstract steps: ext \d+: .*?\(C01Refine\.cmpOk_is_needed\)", "", l[-1])
     for i in range(n):
         if c[i] != l[i]:
             div = {"line": i + 1, "op": o[i] if i < len(o) else "?", "impl": c[i], "model": l[i]}
@@ -98,6 +113,7 @@ def run_one(ctx, mode, cfg, tag, model=True):
         div = {"line": n + 1, "op": "<length>", "impl": "%d lines" % len(c), "model": "%d lines" % len(l)}
     res["div"] = div
     res["lines"] = n
+    res["suspended"] = suspended
     res["sample"] = [x for x in c if x.split()[0] in ("rb", "fwd", "fdone", "antil", "finilp")][:3]
     res["finals"] = sorted(x.split(" seq=")[0] for x in c if x.startswith("finilp"))
     for f in (ops, cf, lf):
@@ -569,11 +585,15 @@ def oracle_search(ctx, cfgs, keys, mode="par", jobs=12, label="oracle_search"):
 
 
 def tw_matrix(ctx, n_quick, n_thorough, salt=0, jobs=12):
-    """Refinement check against the abstract global Time Warp machine (Model/TimeWarp.lean; theorems Props/C01Glue.lean): small
-    single-rank scheduled runs whose re-execution ALSO steps the abstract machine (`twshadow`): every process_msg of the real run
-    must be an enabled abstract action (exec / annihilate / antiRollback), the abstract history of the LP must equal the concrete
-    one afterwards, and every GVT value told to a thread must be a lower bound of the abstract pending messages and
-    anti-messages (the hypothesis of C01Glue.reachable_hist). Cost is quadratic in the history length, hence small runs."""
+    """Refinement check against the abstract global Time Warp machines: small single-rank scheduled runs whose re-execution ALSO
+    steps an abstract machine: every process_msg of the real run must be an enabled abstract action (exec / annihilate /
+    antiRollback), the abstract history of the LP must equal the concrete one afterwards, and every GVT value told to a thread must
+    be a lower bound of the abstract pending messages and anti-messages (the hypothesis of reachable_hist).
+    * even configurations: strictly causal GenModel (V2s), content-level machine (Model/TimeWarp.lean; Props/C01Glue.lean), `tw=1`;
+    * odd configurations: V2-ONLY GenModel mode (t0 bit 1: zero-delay forwards of identical content) and the INSTRUMENTED machine
+      (Model/TimeWarpG.lean, ghost creation order; Props/C01GlueV2.lean), `tw=2`: actions are called with the tagged message (content +
+      creation step), histories are compared as (content, creation step) pairs; every other one of them runs BOTH shadows (`tw=3`).
+    Cost is quadratic in the history length, hence small runs."""
     import concurrent.futures
     if not build(ctx):
         return None
@@ -589,19 +609,32 @@ def tw_matrix(ctx, n_quick, n_thorough, salt=0, jobs=12):
                   "t0": rnd.choice([0, 1]), "budget": 1500000})
         c.pop("tterm", None)
         c.pop("skew", None)
+        if i % 2 == 1:
+            c.update({"t0": c["t0"] | 2, "types": max(c["types"], 3), "tw": 3 if i % 4 == 3 else 2})
         cfgs.append(c)
     agg = Agg()
+    n_v2 = n_twg = 0
+    susp = []
     with concurrent.futures.ThreadPoolExecutor(max_workers=jobs) as ex:
         for r in ex.map(lambda ic: run_one(ctx, "par", ic[1], "tw%d" % ic[0]), enumerate(cfgs)):
             agg.add(r)
-    ctx.oblige("refinement:abstract Time Warp machine (C01Glue) shadows %d real runs: every process_msg is an enabled abstract action, "
+            n_v2 += 1 if r["cfg"]["t0"] & 2 else 0
+            n_twg += 1 if r["cfg"]["tw"] & 2 else 0
+            if r.get("suspended"):
+                susp.append({"cfg": r["cfg"], "suspended": r["suspended"]})
+    ctx.oblige("refinement:abstract Time Warp machines shadow %d real runs (content-level machine / C01Glue on %d strictly causal "
+               "configurations; INSTRUMENTED machine TWG / C01GlueV2, messages tagged with their creation step, on %d V2-only "
+               "configurations with zero-delay forwards of identical content): every process_msg is an enabled abstract action, "
                "histories agree after every step, every adopted GVT is a lower bound of the abstract pending set (%d trace lines, %d "
-               "forward steps, %d rollbacks, %d GVT values)" % (agg.runs, agg.lines, agg.tot.get("fwd", 0), agg.tot.get("rollbacks", 0),
-                                                              agg.tot.get("gvt", 0)),
+               "forward steps, %d rollbacks, %d GVT values; %d runs suspended at the known non-refining step cmpOk_is_needed)"
+               % (agg.runs, agg.runs - n_v2, n_twg, agg.lines, agg.tot.get("fwd", 0), agg.tot.get("rollbacks", 0),
+                  agg.tot.get("gvt", 0), len(susp)),
                not agg.divs, json.dumps({"cfg": agg.divs[0]["cfg"], "div": agg.divs[0]["div"]}) if agg.divs else "")
     for r in agg.crashes[:2]:
         ctx.violation("runtime-crash", {"cfg": r["cfg"], "output": r["out"][-500:]}, True)
     ctx.coverage["abstract_time_warp_shadow"] = {"runs": agg.runs, "trace_lines": agg.lines, "forward_steps": agg.tot.get("fwd", 0),
                                                  "rollbacks": agg.tot.get("rollbacks", 0), "anti_messages": agg.tot.get("antis", 0),
-                                                 "gvt_values_checked": agg.tot.get("gvt", 0), "outcomes": agg.outcomes}
+                                                 "gvt_values_checked": agg.tot.get("gvt", 0), "outcomes": agg.outcomes,
+                                                 "v2_only_configurations": n_v2, "instrumented_machine_runs": n_twg,
+                                                 "suspended_at_cmpOk_gap": susp[:5], "suspended_runs": len(susp)}
     return agg
